@@ -28,6 +28,7 @@ def main():
     os.environ.setdefault('NUMBA_DISABLE_PERFORMANCE_WARNINGS', '1')
     from rtc import checks_array, checks_frame  # noqa: F401
     from rtc.registry import CHECKS
+    from rtc.gen import DerivationError
     n_default = {'quick': 60, 'thorough': 600}[a.tier]
     out = {'prop': a.prop, 'contracts': [], 'violations': [], 'evaluations': 0, 'distinct_inputs': 0, 'errors': []}
     seen = set()
@@ -44,6 +45,16 @@ def main():
         for _ in range(n):
             try:
                 vs = fn(rng)
+            except DerivationError as e:
+                # a valid derivation step raised in the code under test: C16 states what every derivation yields, so
+                # there it is a violation; for the other properties the input could not be built and the sample is
+                # skipped (counted), not a fault of the checker
+                if a.prop == 'C16':
+                    vs = [{'key': f'derivation/{e.step[0]}/raises-{type(e.exc).__name__}', 'detail': str(e)[:600],
+                           'recipe': e.recipe}]
+                else:
+                    out['skipped_inputs'] = out.get('skipped_inputs', 0) + 1
+                    continue
             except Exception as e:
                 out['errors'].append({'contract': name, 'error': f'{type(e).__name__}: {e}', 'trace': traceback.format_exc(limit=4)})
                 break
